@@ -150,7 +150,7 @@ func LoadFiles(files []*BufferedFile) (*chart.Chart, error) {
 		case strings.HasPrefix(f.Name, "templates/"):
 			c.Templates = append(c.Templates, &chart.File{Name: f.Name, Data: f.Data})
 		case strings.HasPrefix(f.Name, "charts/"):
-			if filepath.Ext(f.Name) == ".prov" {
+			if filepath.Ext(f.Name) == ".prov" && !strings.Contains(strings.TrimPrefix(f.Name, "charts/"), "/") {
 				c.Files = append(c.Files, &chart.File{Name: f.Name, Data: f.Data})
 				continue
 			}
